@@ -110,15 +110,28 @@ def job_headers(job) -> report.JobResult:
         for c in pk.items + pv.items:
             eng.solver.add(*[c.e != b for b in BAD])  # induction hypothesis: the pre-state is clean
         for c in pk.items:
-            eng.solver.add(z3.Or(c.e < 65, c.e > 90), c.e <= 0xFF)  # stored keys are lower-case already
+            eng.solver.add(z3.Or(c.e < 65, c.e > 90), c.e <= 0xFF, z3.Or(c.e < 192, c.e > 222, c.e == 215))  # stored keys are lower-case already (A-Z and the Latin-1 capitals)
     for c in k.items:
         eng.solver.add(c.e <= 0xFF)  # key case-folding is modelled exactly on Latin-1
+    if job.get("prefix"):
+        v = job["prefix"] + v  # a long stored text around the symbolic characters (nothing may fold or wrap it into several lines)
+    resp: List[Any] = [None]
 
     def build():
-        h = MutableHeaders()
+        resp[0] = WR.Response()
+        h = resp[0].headers
         if pre:
             h._dict[pk] = pv
         return h
+
+    def emitted():
+        # what the response hands to the server, in both forms (text for WSGI, bytes for ASGI; text that ISO-8859-1 cannot carry may fail there)
+        out_ = list(resp[0].list_headers(as_bytes=False))
+        try:
+            out_ += list(resp[0].list_headers(as_bytes=True))
+        except UnicodeEncodeError:
+            pass
+        return out_
 
     def fn():
         h = build()
@@ -143,7 +156,7 @@ def job_headers(job) -> report.JobResult:
                 h.update(MutableHeaders({k: v}))
         except ValueError as ex:
             raised = ex
-        return h, before, raised
+        return h, before, raised, (emitted() if raised is None else [])
 
     def on_path(e, r):
         kind, val = r
@@ -154,7 +167,7 @@ def job_headers(job) -> report.JobResult:
                 raise Fail(f"exception:{type(val).__name__}", repr(val))
             if twin:
                 raise Fail("twin-assert-false")
-            h, before, raised = val
+            h, before, raised, lines = val
             dirty = z3.Or(dirty_term(k), dirty_term(v))
             after = snapshot(h)
             if raised is not None:
@@ -168,7 +181,7 @@ def job_headers(job) -> report.JobResult:
                 stored_something = not (len(after) == len(before) and all(same_items(e, a[1], b[1]) for a, b in zip(after, before)))
                 if stored_something and e.check(dirty):
                     raise Fail("dirty-input-stored", "CR/LF/NUL accepted by " + op)
-                for kk, vv in after:
+                for kk, vv in list(after) + list(lines):
                     if any_bad(e, _items_of(kk)) or any_bad(e, _items_of(vv)):
                         raise Fail("header-line-with-control-character")
                 outcome = "stored"
@@ -241,6 +254,12 @@ def concrete_headers(w) -> Optional[str]:
         for kk, vv in r.list_headers(as_bytes=False):
             if any(c in kk + vv for c in "\r\n\0"):
                 return f"emitted header line with control character: {kk!r}: {vv!r}"
+        try:
+            for kb, vb in r.list_headers(as_bytes=True):
+                if any(c in kb + vb for c in b"\r\n\0"):
+                    return f"emitted header line with control character: {kb!r}: {vb!r}"
+        except UnicodeEncodeError:
+            pass
         return None
     finally:
         Engine.cur = prev
@@ -264,7 +283,14 @@ def job_cookie(job) -> report.JobResult:
     value = SStr.fresh(lv, "v", 0, hi, eng.solver)
     for c in name.items + value.items:
         eng.solver.add(c.e < 0xF0000)
-    shims = Shims().add(DS, _cookie_is_legal_key=legal_key_shim()).add_compiled_regexes(DS)
+    sym_items = name.items + value.items
+    if job.get("prefix"):
+        # a long serialized list in front of the symbolic characters (escaping must not run out after some number of characters)
+        if job.get("prefix_on", "value") == "value":
+            value = job["prefix"] + value
+        else:
+            name = job["prefix"] + name
+    shims = Shims().add(DS, _cookie_is_legal_key=legal_key_shim(), re=ReShim).add_compiled_regexes(DS)
     attrs = job.get("attrs", {})
 
     def fn():
@@ -314,6 +340,10 @@ def job_cookie(job) -> report.JobResult:
             klass, detail = f.klass, f.detail
         if klass in (None, "twin-assert-false", "attribute-count-changed", "set-cookie-count") or (klass or "").startswith("exception"):
             e.last_sat = False
+        if (klass or "").startswith("exception"):
+            # the path broke before a line was emitted: ask for the instance of it with a CR/LF/NUL/';' among the symbolic characters,
+            # the one the concrete run below is most likely to show something on
+            e.check(z3.Or([z3.Or(c.e == 13, c.e == 10, c.e == 0, c.e == 59) for c in sym_items] or [z3.BoolVal(False)]))
         m = e.witness()
         wit = {"name": conc(name, m), "value": conc(value, m), "kw": job.get("cookie_kw", {}), "reassign": bool(job.get("reassign")), "delete": bool(job.get("delete"))}
         with shims.off():
@@ -502,6 +532,9 @@ def jobs(tier: str):
             for lk in range(0, b["header_name_len_max"] + 1):
                 for lv in range(0, b["header_value_len_max"] + 1):
                     out.append(dict(name=f"headers/{op}/pre{pre}/k{lk}v{lv}", kind="headers", op=op, pre=pre, lk=lk, lv=lv, weight=3 ** (lk + lv)))
+    for op in ("setitem", "append", "update_mapping", "setdefault"):
+        out.append(dict(name=f"headers/{op}/long-text-beyond-latin1/v2", kind="headers", op=op, pre=0, lk=1, lv=2, prefix="\u6ce8\u610f\uff1a" + "\u65e5\u672c\u8a9e" * 12 + " plain words here ", weight=9))
+    out.append(dict(name="headers/setitem/long-latin1-text/v2", kind="headers", op="setitem", pre=0, lk=1, lv=2, prefix="caf\xe9 " * 40, weight=9))
     out.append(dict(name="twin/headers", kind="headers", op="setitem", pre=0, lk=1, lv=1, twin=True))
     for ln in range(0, b["cookie_name_len_max"] + 1):
         for lv in range(0, b["cookie_value_len_max"] + 1):
@@ -511,6 +544,9 @@ def jobs(tier: str):
         out.append(dict(name=f"cookie/deleted/n{ln}", kind="cookie", ln=ln, lv=0, delete=True, weight=5 ** ln))
     for ln, lv in ((0, 2), (1, 1), (1, 2), (2, 1)):
         out.append(dict(name=f"cookie/reassigned/n{ln}v{lv}", kind="cookie", ln=ln, lv=lv, reassign=True, weight=5 ** (ln + lv)))
+    for n_unsafe in (16, 17, 40):
+        out.append(dict(name=f"cookie/after-{n_unsafe}-escaped-characters/v2", kind="cookie", ln=1, lv=2, prefix="k=v;" * n_unsafe, weight=30))
+    out.append(dict(name="cookie/after-17-escaped-characters/n2", kind="cookie", ln=2, lv=1, prefix="a,b;" * 9, prefix_on="name", weight=30))
     out.append(dict(name="cookie/attrs/n1v1", kind="cookie", ln=1, lv=1, attrs={"max_age": 10, "secure": True, "httponly": True, "domain": "e.org"},
                     cookie_kw={"max_age": 10, "secure": True, "httponly": True, "domain": "e.org"}))
     out.append(dict(name="twin/cookie", kind="cookie", ln=1, lv=1, twin=True))
